@@ -322,7 +322,14 @@ func checkScanStream(e *epochRun, si int, s *Stream, add func(class, op, detail 
 			}
 			tk := toks[j]
 			if !scanAlphabet(tk.text) {
-				return // fmt cuts such tokens by its own rules: not judged
+				// Scan consumes only part of such a token: this call is judged
+				// against that part, the following ones are not
+				if !(errAt >= 0 && errAt <= tk.end) && r.Err == nil {
+					if s2 := judgeScan(tk.text, e.ep.Mode, nil, r.D[0]); s2 != "" {
+						add(VWrong, "Fscan", fmt.Sprintf("token %d of the stream: %s", j+1, s2), ti, oi)
+					}
+				}
+				return
 			}
 			lit := ref.ParseLiteral(tk.text, ref.LitOpts{NoLongInf: true})
 			faultNear := errAt >= 0 && errAt <= tk.end
